@@ -93,6 +93,7 @@ static bool WalkMsgIOStream(const uint8 * b, uint32 n, Walk & w)
 // ---------------------------------------------------------------- seeds
 struct Seed {
    std::string name;
+   std::string prefix;                // stream gateways: valid bytes delivered (whole, never mutated) before `bytes`, e.g. a completed WebSocket handshake
    std::string bytes;                 // the valid encoding (for packet targets: concatenation of the packets)
    std::vector<uint32> cuts;          // packet boundaries (end offsets), empty for streams / flat buffers
    Walk walk;                         // structural words (may be empty: then every 4-aligned offset is a pair candidate)
